@@ -36,6 +36,17 @@ R12.5 purge before statistics (def-use over the CFG, sibling agreement):
       (size, min, max, skew, percentile …) from the purged value; the raw
       parameter is only used to compute the mask, to form the purged value,
       or as the argument of a sibling that purges it itself.
+R12.7 contour grid: the events that define the extent of the grid (min /
+      max / number of points handed to ``np.linspace``) are selected from the
+      scaled events with a mask that depends on *both* coordinates – the
+      joint validity the estimator wrapper applies – so an event the
+      estimator drops cannot stretch the grid.
+R12.8 dtype discipline of the estimators (kde_methods, kde_contours,
+      external/statsmodels/nonparametric): a buffer that receives kernel /
+      density values through subscript stores is allocated floating
+      (``np.empty/zeros/ones/full`` with the default or an explicit float
+      dtype); ``*_like(<data>)`` without an explicit float dtype inherits the
+      dtype of the input (integer features would truncate the values).
 R12.6 downsampled scatter (evaluated symbolically): the returned mask has
       the length of the dataset and marks exactly the events whose data are
       returned, which are selected events.
@@ -1137,7 +1148,12 @@ def r123(ctx, repo):
                     if k != "deform":
                         raise KeyError(k)
                     return vals.copy()
-            mini2 = Mini({"np": np_values()})
+            mini2 = Mini({"np": np_values(),
+                          "tb": NS("tb", format_exc=lambda: "exc"),
+                          "traceback": NS("tb", format_exc=lambda: "exc"),
+                          "warnings": NS("warnings",
+                                         warn=lambda *a, **k: None),
+                          "BadMethodWarning": UserWarning})
             mini2.bind_module(repo.tree(STAT))
             me = SelfModel(mini2, repo.cls(STAT, "Statistics"),
                            name="Mean", req_feature=True)
@@ -1299,6 +1315,186 @@ def r124(ctx, repo):
            f"`{short(p, 60)}` is not the NaN-aware q*100-th percentile of "
            f"the densities at the events `{dp}`", node=p,
            label="quantile: percentile of event densities")
+
+
+# ----------------------------------------------------------------------
+# R12.7 grid events = estimator events
+
+def r127(ctx, repo):
+    n_grids = 0
+    for func0, cls in functions_with_class(repo, CORE):
+        lins = [c for c in walk(func0) if isinstance(c, ast.Call)
+                and (call_name(c) or "").endswith("linspace")]
+        if not lins or not scaling_calls(func0):
+            continue
+        func = inline_helpers(repo, CORE, func0,
+                              keep=("_apply_scale", "get_kde_spacing"))
+        lins = [c for c in walk(func) if isinstance(c, ast.Call)
+                and (call_name(c) or "").endswith("linspace")]
+        est_names = {n.targets[0].id for n in walk(func)
+                     if isinstance(n, ast.Assign) and isinstance(
+                         n.targets[0], ast.Name) and "methods" in txt(n.value)
+                     and isinstance(n.value, ast.Subscript)}
+        ests = [c for c in walk(func) if isinstance(c, ast.Call)
+                and isinstance(c.func, ast.Name) and c.func.id in est_names]
+        if not ests:
+            continue
+        ev = set()
+        for c in ests:
+            for e in (kwarg(c, "events_x", 0), kwarg(c, "events_y", 1)):
+                if isinstance(e, ast.Name):
+                    ev.add(e.id)
+                elif e is not None:
+                    raise AnalysisError(
+                        f"{func.name}: estimator events `{txt(e)}` are not "
+                        f"plain names")
+        if len(ev) != 2:
+            raise AnalysisError(f"{func.name}: estimator events not found")
+        ax = Axes(func)
+        defs = {}
+        for n in walk(func):
+            if isinstance(n, ast.Assign):
+                for tg in n.targets:
+                    for t in (tg.elts if isinstance(tg, ast.Tuple)
+                              else [tg]):
+                        if isinstance(t, ast.Name):
+                            defs.setdefault(t.id, []).append(n)
+        for c in lins:
+            n_grids += 1
+            axis = ax.of(c)
+            axis_l = "".join(sorted(axis)) or "?"
+            # assignments the grid extent depends on
+            seen, todo, problems, selections = set(), [], [], []
+            direct = set()
+            for a in list(c.args) + [k.value for k in c.keywords]:
+                todo += list(data_names(a))
+                direct |= data_names(a) & ev
+            if direct:
+                problems.append(f"the grid is built from `"
+                                f"{'`, `'.join(sorted(direct))}` directly")
+            while todo:
+                nm = todo.pop()
+                if nm in seen or nm in ev:
+                    continue
+                seen.add(nm)
+                for st in defs.get(nm, []):
+                    v = st.value
+                    used = data_names(v) & ev
+                    if used:
+                        if isinstance(v, ast.Subscript) and isinstance(
+                                v.value, ast.Name) and v.value.id in ev:
+                            selections.append((st, v))
+                        else:
+                            problems.append(
+                                f"`{short(st, 50)}` uses the events without "
+                                f"a validity selection")
+                    todo += list(data_names(v))
+            for st, v in selections:
+                m_axes = ax.of(v.slice) if not isinstance(
+                    v.slice, ast.Slice) else set()
+                if m_axes != {"x", "y"}:
+                    problems.append(
+                        f"`{short(st, 50)}` selects with a mask that "
+                        f"depends on the {'/'.join(sorted(m_axes)) or 'no'} "
+                        f"axis only")
+            if not selections and not problems:
+                raise AnalysisError(
+                    f"{func.name}: the grid `{short(c, 40)}` does not "
+                    f"derive from the estimator's events")
+            ctx.ob("R12.7", not problems,
+                   f"the {axis_l} extent of the grid is taken from events "
+                   f"valid in both coordinates (the events the estimator "
+                   f"keeps)" if not problems else
+                   f"the {axis_l} extent of the grid: "
+                   + "; ".join(sorted(set(problems)))
+                   + " – an event the estimator drops (invalid in the other "
+                   "coordinate) still stretches the grid", node=c,
+                   label=f"grid extent {axis_l} from jointly valid events")
+    ctx.stat("R12.7 grids", n_grids)
+
+
+# ----------------------------------------------------------------------
+# R12.8 float buffers
+
+EXT = "dclab/external/statsmodels/nonparametric/"
+ALLOC = {"empty", "zeros", "ones", "full"}
+ALLOC_LIKE = {"empty_like", "zeros_like", "ones_like", "full_like"}
+FLOAT_DTYPES = {"float", "np.float64", "np.float32", "np.double",
+                "np.longdouble", "np.float_", "np.floating", "'float'",
+                "'float64'", "'float32'", "'f8'", "'f4'", "'d'",
+                "numpy.float64", "numpy.float32", "np.single",
+                "np.complex128", "complex"}
+NONFLOAT_DTYPES = {"int", "bool", "np.int64", "np.int32", "np.uint8",
+                   "np.bool_", "np.uint16", "np.uint32", "np.uint64",
+                   "np.int16", "np.int8", "'int'", "'bool'", "np.intp"}
+
+
+def r128(ctx, repo):
+    files = [KDE, KDC] + [r for r in repo.files(EXT) if r.endswith(".py")]
+    n = 0
+    for rel in files:
+        for q, f in repo.all_functions(rel):
+            stored = set()
+            for s in walk(f):
+                tg = []
+                if isinstance(s, ast.Assign):
+                    tg = s.targets
+                elif isinstance(s, ast.AugAssign):
+                    tg = [s.target]
+                for t in tg:
+                    if isinstance(t, ast.Subscript) and isinstance(
+                            t.value, ast.Name):
+                        stored.add(t.value.id)
+            floats = set()
+            allocs = []
+            seen_lab = {}
+            for s in walk(f):
+                if isinstance(s, ast.Assign) and len(s.targets) == 1 \
+                        and isinstance(s.targets[0], ast.Name) \
+                        and isinstance(s.value, ast.Call):
+                    la = last_attr(s.value)
+                    nm = call_name(s.value) or ""
+                    if la in ALLOC | ALLOC_LIKE and nm.split(".")[0] in (
+                            "np", "numpy"):
+                        allocs.append((s.targets[0].id, s, la))
+            allocs.sort(key=lambda a: a[1].lineno)
+            for name, s, la in allocs:
+                c = s.value
+                pos = 2 if la in ("full", "full_like") else 1
+                dt = kwarg(c, "dtype", pos)
+                if dt is None:
+                    is_float = la in ALLOC or bool(
+                        c.args and isinstance(c.args[0], ast.Name)
+                        and c.args[0].id in floats)
+                    why = ("inherits the dtype of `"
+                           + (txt(c.args[0]) if c.args else "?") + "`")
+                else:
+                    d = txt(dt)
+                    if d in FLOAT_DTYPES:
+                        is_float = True
+                    elif d in NONFLOAT_DTYPES or d.endswith(".dtype"):
+                        is_float = False
+                    else:
+                        raise AnalysisError(
+                            f"{rel}::{q}: dtype `{d}` of buffer `{name}` "
+                            f"not classified")
+                    why = f"has dtype {d}"
+                if is_float:
+                    floats.add(name)
+                if name not in stored:
+                    continue
+                n += 1
+                seen_lab[name] = seen_lab.get(name, 0) + 1
+                lab = name if seen_lab[name] == 1 else (
+                    f"{name} #{seen_lab[name]}")
+                ctx.ob("R12.8", is_float,
+                       f"buffer `{name}` that receives computed values is "
+                       f"allocated floating" if is_float else
+                       f"buffer `{name}` receives kernel / density values "
+                       f"but {why}: for integer-typed feature data the "
+                       f"values are truncated (a density of all zeros)",
+                       node=s, label=f"float buffer {lab}")
+    ctx.stat("R12.8 buffers", n)
 
 
 # ----------------------------------------------------------------------
@@ -1642,6 +1838,12 @@ def run(ctx):
     r124(ctx, repo)
     r125(ctx, repo)
     r126(ctx, repo)
+    ctx.rule("R12.7", "contour grid extent from the events valid in both "
+             "coordinates (the estimator's events)", minimum=2)
+    ctx.rule("R12.8", "buffers receiving kernel / density values are "
+             "allocated floating", minimum=2)
+    r127(ctx, repo)
+    r128(ctx, repo)
     if ctx.tier == "thorough":
         other = []
         for rel in repo.files("dclab/"):
@@ -1994,5 +2196,56 @@ TWINS = list(TWINS) + [
       "            n_inf = int(np.sum(np.isinf(xs)))\n"
       "            del n_inf\n\n"
       "        _, _, idx = downsampling.downsample_grid(")),
+]
+
+
+_GRID_SEL = ("        bad = kde_methods.get_bad_vals(xs, ys)\n"
+             "        xc = xs[~bad]\n        yc = ys[~bad]\n")
+
+MUTANTS = list(MUTANTS) + [
+    ("contour grid from per-axis finite values (seeded)", CORE,
+     (_GRID_SEL, "        xc = xs[np.isfinite(xs)]\n"
+                 "        yc = ys[np.isfinite(ys)]\n"), "R12.7"),
+    ("contour grid: y extent from the x validity only", CORE,
+     (_GRID_SEL, "        bad = kde_methods.get_bad_vals(xs, xs)\n"
+                 "        xc = xs[~bad]\n        yc = ys[~bad]\n"), "R12.7"),
+    ("contour grid from all scaled events", CORE,
+     [(_GRID_SEL, ""),
+      ("xlin = np.linspace(xc.min(), xc.max(), xnum, endpoint=True)",
+       "xlin = np.linspace(np.nanmin(xs), np.nanmax(xs), xnum, "
+       "endpoint=True)"),
+      ("xnum = int(np.ceil((xc.max() - xc.min()) / xacc))",
+       "xnum = int(np.ceil((np.nanmax(xs) - np.nanmin(xs)) / xacc))"),
+      ("yc.max()", "np.nanmax(ys)", 0), ("yc.min()", "np.nanmin(ys)", 0),
+      ("yc.min()", "np.nanmin(ys)", 0), ("yc.max()", "np.nanmax(ys)", 0)],
+     "R12.7"),
+    ("statistics: invalid values kept as nan (seeded core)", STAT,
+     ("        bad = np.isnan(x) | np.isinf(x)\n        xout = x[~bad]\n",
+      "        xout = np.where(np.isinf(x), np.nan, x)\n"), "R12.3"),
+    ("statistics: method applied to the unpurged data", STAT,
+     ("            return self.get_feature(ds, kwargs[\"feature\"])",
+      "            return ds[kwargs[\"feature\"]][ds.filter.all]"), "R12.3"),
+    ("kernel buffer inherits the data dtype (seeded)",
+     EXT + "_kernel_base.py",
+     ("    Kval = np.empty(data.shape)", "    Kval = np.empty_like(data)"),
+     "R12.8"),
+    ("kernel buffer allocated as integers", EXT + "_kernel_base.py",
+     ("    Kval = np.empty(data.shape)",
+      "    Kval = np.zeros(data.shape, dtype=int)"), "R12.8"),
+    ("wrapper: density buffer inherits the event dtype", KDE,
+     ("            density = np.zeros_like(events_x, dtype=np.float64)",
+      "            density = np.zeros_like(events_x)"), "R12.8"),
+]
+
+TWINS = list(TWINS) + [
+    ("contour grid: joint finite mask written out", CORE,
+     (_GRID_SEL, "        good = np.isfinite(xs) & np.isfinite(ys)\n"
+                 "        xc = xs[good]\n        yc = ys[good]\n")),
+    ("kernel buffer with explicit float dtype", EXT + "_kernel_base.py",
+     ("    Kval = np.empty(data.shape)",
+      "    Kval = np.empty(data.shape, dtype=np.float64)")),
+    ("wrapper: density buffer from the shape", KDE,
+     ("            density = np.zeros_like(events_x, dtype=np.float64)",
+      "            density = np.zeros(events_x.shape, dtype=float)")),
 ]
 
